@@ -52,6 +52,19 @@ pub fn explore(ex: &Ex) {
             });
         }
     }
+    // the tagged entry point sees the same body however its lists and heads are spelt: every
+    // encoding within one deviation of each valid message, under its own tag
+    {
+        let msgs: Vec<(crate::refcose::Ty, Item)> = c09::valid_messages().into_iter().filter(|(t, _)| tag_of(*t).is_some()).collect();
+        par_partitions(ex.rep, msgs, |(ty, it), l| {
+            let own = tag_of(*ty).unwrap();
+            for (lvl, e) in crate::refcbor::encodings(it, 1, &crate::refcbor::DevOpts::NO_BIGNUM) {
+                l.state(lvl as u64);
+                let b1 = Enc::Tag(own, min_w(own), Box::new(e)).to_bytes();
+                ex.decode(l, "c14.encodings", *ty, Entry::Tagged, &b1);
+            }
+        });
+    }
     ex.bound("c14", "bodies", json!(bodies.len()));
     ex.bound("c14", "tags", json!(TAGS.to_vec()));
     par_partitions(ex.rep, bodies, |body, l| {
